@@ -3,7 +3,7 @@ import Mathlib.Data.Rat.Defs
 import Mathlib.Tactic
 
 /-!
-C08-T5 (negative result): the stopping rule `i > 3 ∧ |T_i − T_{i−1}|/3 < atol` of
+C08-T5 (negative result): the stopping rule `i > 3 ∧ |T_i − T_{i−1}|/3 ≤ atol` of
 `NoisyQuadraticDistribution.average_tuning_curve` is an error *estimate*, not a bound.  A rational
 witness, evaluated by the kernel on the very loop model the driver runs (`Opda.TrapLoop.runCapped`,
 here at `Rat`): a continuous, piecewise-linear, non-decreasing CDF on `[1, 2]` for which the loop stops
@@ -28,8 +28,8 @@ def F (y : Rat) : Rat :=
 /-- `x ↦ x^1` (the witness uses `n = 1`) -/
 def pw1 (x _n : Rat) : Rat := x
 
-/-- integrand of the code for maximising, `n = 1`: `1[y>0] − F(y)` -/
-def g : Rat → Rat := gCur natQ pw1 F false 1
+/-- integrand of the code for maximising, `n = 1`: `1 − F(y)` -/
+def g : Rat → Rat := gRep natQ pw1 F false 1
 
 /-- default tolerance `1e-6·(hi − lo)` -/
 def atol : Rat := 1 / 1000000
